@@ -1,4 +1,4 @@
-use std::ops::{BitAnd, BitOr, BitXor, Not, Shl, Shr};
+use std::ops::{BitAnd, BitOr, BitXor, Not};
 
 use crate::{EvalexprError, EvalexprResult, Value};
 
@@ -145,11 +145,15 @@ impl<NumericTypes: EvalexprNumericTypes<Int = Self>> EvalexprInt<NumericTypes> f
     }
 
     fn bit_shift_left(&self, rhs: &Self) -> Self {
-        Shl::shl(*self, *rhs)
+        // Shift amounts outside of 0..=63 must not panic; like the machine instruction, only the
+        // lowest six bits of the amount are used.
+        self.wrapping_shl(*rhs as u32)
     }
 
     fn bit_shift_right(&self, rhs: &Self) -> Self {
-        Shr::shr(*self, *rhs)
+        // Shift amounts outside of 0..=63 must not panic; like the machine instruction, only the
+        // lowest six bits of the amount are used.
+        self.wrapping_shr(*rhs as u32)
     }
 }
 
